@@ -29,8 +29,10 @@ TRUSTED = [
     "Go driver (json.Marshal of the parsed entity with internalId/recorded zeroed) rather than modelled",
     "badger transactions/iterators are modelled as atomic updates of sorted lists (Model/Store.v); change sequence numbers are contiguous "
     "from 0 (no crash in these histories)",
+    "histories with a refused batch (nil reference): the batch is a no-op in the model; Badger's sequence has consumed positions for it, "
+    "so every token of such a history is renumbered by the harness to its rank among the sequence numbers really present (driver op seqs)",
 ]
-ASSUMPTIONS = ["sequential histories (one client); no dataset deletion, compaction or crash inside a history (C04, C07, C12 cover those)"]
+ASSUMPTIONS = ["sequential histories (one client) plus forced two-writer schedules (race op); no dataset deletion, compaction or crash inside a history (C04, C07, C12 cover those)"]
 
 CODES = sc.Codes()
 
